@@ -31,6 +31,15 @@ CLAIMED = {
         technique="symbolic execution of the real functions + z3 VCs over an abstract group model",
         note=LEVEL_NOTE_MODELS + "; group-level functions are uninterpreted (both engines assumed to compute the same sums/extrema)",
     ),
+    "C18": dict(
+        text="Proof relative to the library models, with z3's string + regular-expression theory: for every operator position that takes a string literal and every literal of a "
+        "fixed metacharacter alphabet (SQL quotes/comments, LIKE %, _, escape char, regex metacharacters, newline, non-ASCII, empty), the real tree is compiled by the real "
+        "compile_col_expr of both backends and the value for an arbitrary (symbolic) column string equals the literal string function; LIKE patterns are modelled exactly "
+        "(autoescape rendering + LIKE/ESCAPE semantics as regex), raw text / custom operators in the compiled SQL are rejected (L1).",
+        design_ref="DESIGN.md §5.18",
+        technique="symbolic execution of the real functions + z3 string/regex VCs",
+        note=LEVEL_NOTE_MODELS + "; literal alphabet is a fixed finite list, column values are unbounded; SQLAlchemy's literal quoting is trusted; SQLite LIKE case-insensitivity (library warns) is not re-reported",
+    ),
 }
 
 NOT_YET = "check not built yet (engine under construction); will be claimed as soon as its obligations discharge"
